@@ -198,10 +198,10 @@ class _Rewrite(ast.NodeTransformer):
 _mods = {}
 
 
-def load_module(relpath, deps=()):
+def load_module(relpath, deps=(), variant=''):
     """Execute the real source of REPO/relpath (rewritten R1) in a fresh module object whose global np is the shim.
     deps: already loaded symbolic modules to substitute for `from onsager import x` style imports."""
-    key = (relpath, tuple(sorted(d.__name__ for d in deps)))
+    key = (relpath, tuple(sorted(d.__name__ for d in deps)), variant)
     if key in _mods: return _mods[key]
     path = os.path.join(REPO, relpath)
     src = open(path).read()
